@@ -53,12 +53,22 @@ def grammar_items(tier: str) -> list:
     return items
 
 
+def budget_scale(n: int) -> int:
+    """The number of derivations of an ambiguous repetition such as ("a"{0,2}){2,} grows about five-fold per input
+    symbol and the parser enumerates them all (measured: 29 956 admissions at length 5, ~300 000 at length 6, and it
+    returns).  The liveness budget therefore grows six-fold per symbol beyond length 4; a diverging request exceeds
+    any budget and shows up on the shortest word first, where the budget is small."""
+    return 6 ** max(0, n - 4)
+
+
 def _parse_all(spec: Any, w: Any, start: str, mode: Any, counter: AdmissionCounter) -> tuple:
     """returns (status, trees) with status in ok|budget|timeout|error:<type>"""
     counter.reset()
+    scale = budget_scale(len(w))
+    counter.budget = ADMISSION_BUDGET * scale
     trees = []
     try:
-        with time_limit(TIME_BUDGET_S):
+        with time_limit(min(TIME_BUDGET_S * scale, 1500.0)):
             gen = spec.grammar.parse_forest(w, start=start, mode=mode)
             for t in gen:
                 trees.append(t)
